@@ -32,6 +32,8 @@ fn gate(p: &Partial, t: Tier) -> Result<(), String> {
     super::need(p, "script", 2000)?;
     super::need(p, "pause-checked", 300)?;
     super::need(p, "partial-variant", 27)?;
+    super::need(p, "mid-line-pause", 5)?;
+    super::need(p, "script-with-options", 200)?;
     super::need(p, "earlier-aircraft-kept", 100)?;
     Ok(())
 }
@@ -97,12 +99,21 @@ fn healthy() -> Vec<u8> {
 }
 
 /// expected tables from the file source: (with partial lines, without partial lines)
-fn expected(script: &[Step]) -> (Vec<Snap>, Vec<Snap>) {
-    let cfg = Cfg::new(&[]);
+fn expected(script: &[Step], opts: &[&str]) -> (Vec<Snap>, Vec<Snap>) {
+    let cfg = Cfg::new(opts);
     let mut with = vec![];
     let mut without = vec![];
     for s in script {
         match s {
+            Step::AcceptSplitLine(h, _, t) => {
+                for v in [&mut with, &mut without] {
+                    v.extend_from_slice(h);
+                    v.extend_from_slice(t);
+                    if !t.ends_with(b"\n") {
+                        v.push(b'\n');
+                    }
+                }
+            }
             Step::AcceptSend(b) | Step::AcceptJunk(b) | Step::AcceptSendHold(b, _) => {
                 for v in [&mut with, &mut without] {
                     v.extend_from_slice(b);
@@ -133,12 +144,31 @@ fn expected(script: &[Step]) -> (Vec<Snap>, Vec<Snap>) {
     (run(&with), run(&without))
 }
 
+/// a peer that really pauses in the middle of a line (split after `cut` bytes of the stream of X_0)
+fn split_script(cut: usize, pause_ms: u64) -> Vec<Step> {
+    let mut all = frames_of(x_addr(0));
+    all.extend_from_slice(frames::df17(5, x_addr(0), frames::me_ident(4, 3, frames::callsign_codes("SPLIT"))).hex().as_bytes());
+    all.push(b'\n');
+    let cut = cut.min(all.len() - 1);
+    vec![Step::AcceptSplitLine(all[..cut].to_vec(), pause_ms, all[cut..].to_vec())]
+}
+
 fn eval_script(ctx: &mut Ctx, syms: &[usize], partial_len: usize) {
     let script: Vec<Step> = syms.iter().enumerate().map(|(k, s)| step_of(*s, k, partial_len)).collect();
+    eval_steps(ctx, script, json!({"script": syms, "partial_len": partial_len}), partial_len);
+}
+
+fn eval_steps(ctx: &mut Ctx, script: Vec<Step>, case_json: Value, partial_len: usize) {
+    eval_steps_opts(ctx, script, case_json, partial_len, &[]);
+}
+
+fn eval_steps_opts(ctx: &mut Ctx, script: Vec<Step>, case_json: Value, partial_len: usize, opts: &[&str]) {
     let names: Vec<String> = script.iter().map(|s| s.name()).collect();
-    let key = format!("[{}] partial={partial_len}", names.join(", "));
-    let case = || json!({"script": syms, "partial_len": partial_len});
-    let rep = run_script(&[], &script, &healthy(), |rows| rows.iter().any(|r| r.key == Y && r.squawk == Some(4521)));
+    let key = format!("[{}] partial={partial_len}{}", names.join(", "), if opts.is_empty() { String::new() } else { format!(" opts {opts:?}") });
+    let case = || case_json.clone();
+    let syms: Vec<String> = names.clone();
+    let syms = &syms;
+    let rep = run_script(opts, &script, &healthy(), |rows| rows.iter().any(|r| r.key == Y && r.squawk == Some(4521)));
     ctx.eval();
     ctx.count("script");
     if let Some(m) = &rep.machinery {
@@ -167,7 +197,7 @@ fn eval_script(ctx: &mut Ctx, syms: &[usize], partial_len: usize) {
         }
     }
     // (iii)/(iv) final table == file source of the same lines
-    let (with, without) = expected(&script);
+    let (with, without) = expected(&script, opts);
     let got = &rep.final_table;
     ctx.outcome(&(syms, got.iter().map(|r| r.key).collect::<Vec<_>>()));
     if !got.iter().any(|r| r.key == Y) {
@@ -281,6 +311,34 @@ fn run(ctx: &mut Ctx) {
             eval_script(ctx, &[3], n);
         }
     }
+    // option sets: every script of length <= 2 under -d 0, -d 1, -U -R, and with the table drawn after every frame
+    for (oi, opts) in [&["-d", "0"][..], &["-d", "1"][..], &["-U", "-R"][..], &["-i", "", "--update=-1", "-c"][..]].iter().enumerate() {
+        for len in 0..=2usize {
+            for idx in 0..NSYM.pow(len as u32) {
+                job += 1;
+                if !ctx.mine(job) {
+                    continue;
+                }
+                let mut syms = vec![];
+                let mut x = idx;
+                for _ in 0..len {
+                    syms.push(x % NSYM);
+                    x /= NSYM;
+                }
+                let script: Vec<Step> = syms.iter().enumerate().map(|(k, s)| step_of(*s, k, 9)).collect();
+                ctx.count("script-with-options");
+                eval_steps_opts(ctx, script, json!({"script": syms, "partial_len": 9, "opts": oi}), 9, opts);
+            }
+        }
+    }
+    // a peer that really pauses (1.3 s / 2.6 s of wall time) in the middle of a line: the line must still be read whole
+    for (cut, ms) in [(1usize, 1300u64), (14, 1300), (29, 2600), (58, 1300), (73, 1300)] {
+        job += 1;
+        if ctx.mine(job) {
+            ctx.count("mid-line-pause");
+            eval_steps(ctx, split_script(cut, ms), json!({"split": cut, "pause_ms": ms}), 0);
+        }
+    }
     if ctx.tier.thorough() {
         if cli::available().is_ok() {
             for sym in 0..5 {
@@ -301,8 +359,19 @@ fn replay(ctx: &mut Ctx, case: &Value) {
         cli_script(ctx, sym as usize);
         return;
     }
+    if let Some(cut) = case.get("split").and_then(|x| x.as_u64()) {
+        let ms = case.get("pause_ms").and_then(|x| x.as_u64()).unwrap_or(1300);
+        eval_steps(ctx, split_script(cut as usize, ms), case.clone(), 0);
+        return;
+    }
     let syms: Vec<usize> = case.get("script").and_then(|s| s.as_array()).map(|a| a.iter().filter_map(|x| x.as_u64().map(|v| v as usize)).collect()).unwrap_or_default();
     let pl = case.get("partial_len").and_then(|x| x.as_u64()).unwrap_or(9) as usize;
+    if let Some(oi) = case.get("opts").and_then(|x| x.as_u64()) {
+        let all: [&[&str]; 4] = [&["-d", "0"], &["-d", "1"], &["-U", "-R"], &["-i", "", "--update=-1", "-c"]];
+        let script: Vec<Step> = syms.iter().enumerate().map(|(k, s)| step_of(*s, k, pl)).collect();
+        eval_steps_opts(ctx, script, case.clone(), pl, all[oi as usize % 4]);
+        return;
+    }
     crate::run::say(&format!("script {:?} partial_len {pl}", syms.iter().enumerate().map(|(k, s)| step_of(*s, k, pl).name()).collect::<Vec<_>>()));
     eval_script(ctx, &syms, pl);
 }
